@@ -33,7 +33,7 @@ def run(ctx):
     q = ctx.quick
     rnd = random.Random(ctx.seed)
     recs = []
-    for cfg, per_class in [("MC_quick.cfg", 6 if q else 60), ("MC_damage.cfg", 1 if q else 8)]:
+    for cfg, per_class in [("MC_quick.cfg", 6 if q else 20), ("MC_damage.cfg", 1 if q else 3)]:
         mc = ctx.tlc("blockfmt", "BlockFmt", cfg, workers=4, timeout=1500)
         ctx.account(mc)
         by = {}
